@@ -30,6 +30,14 @@ LEVEL = "exploration"
 C13_2_APPLIED = True
 if os.environ.get("VERIF_C13_2_APPLIED") in ("0", "1"):
     C13_2_APPLIED = os.environ["VERIF_C13_2_APPLIED"] == "1"
+# SWITCH  C13_3_APPLIED — flip to True in the same commit that applies fixes/C13-3-single-precision-background.diff to /repo.
+# Single-precision images on a background (mean >> contrast).  False (unrepaired code): the torch estimators are off by
+# 0.03..0.4 px for up >= 4 already at mean = 30..300 x contrast (genuine defect, cases not judged), the numpy estimator is
+# judged for up >= 2 at mean = 100..110 x contrast with an integer-shift bound of 0.01 px (its measured floor there is 3e-4 px).
+# True: both backends, mean = 100..1000 x contrast, every factor, the usual float32 bounds.  VERIF_C13_3_APPLIED=0/1 overrides.
+C13_3_APPLIED = False
+if os.environ.get("VERIF_C13_3_APPLIED") in ("0", "1"):
+    C13_3_APPLIED = os.environ["VERIF_C13_3_APPLIED"] == "1"
 # ======================================================================================================================
 ANCHOR_FILES = [
     "quantem/core/utils/imaging_utils.py",
@@ -105,6 +113,15 @@ def plan(tier, seed):
             dt = (["float64", "float32"] if be == "numpy" else ["float32", "float64"])[(k // 2 + rep) % 2]
             al = ["copy_", "numpy_alias", "data_copy", "data_setitem", "view_of_big"][(k + 2 * rep) % 5] if be == "torch" else ["plain", "view_of_big"][(k // 2 + rep) % 2]
             specs.append({"kind": "history", "backend": be, "up": up, "sclass": sc, "shape": SHAPES[(k + rep) % len(SHAPES)], "dtype": dt, "family": fam, "alias": al})
+    preps = 1 if tier == "quick" else 40
+    k = 0
+    for rep in range(preps):  # single-precision images on a large background (mean = 100..1000 x contrast)
+        for be, up, sc in itertools.product(BACKENDS, UPS, ["int", "sub", "int_far", "sub_far"]):
+            k += 1
+            specs.append({"kind": "est", "backend": be, "up": up, "sclass": sc, "shape": SHAPES[(k + rep) % len(SHAPES)], "dtype": "float32", "family": "env" if (be == "torch" and up <= 2) else ["gauss", "env"][(k + rep) % 2], "pedestal": True})
+    mreps = 36 if tier == "quick" else 720
+    for r in range(mreps):  # direct-ptychography multi-scale stack alignment with the optional arguments its real caller passes
+        specs.append({"kind": "multiscale", "mode": ["reference", "pairwise"][r % 2], "init": ["guess", "none", "guess", "zero"][(r // 2) % 4], "levels": [[1], [2, 1], [3, 1], [3, 2, 1]][(r // 3) % 4], "sclass": ["int", "sub"][(r // 5) % 2], "up": [4, 8, 1, 16, 2][(r // 7) % 5], "dtype": ["float32", "float64"][(r // 4) % 2], "running_average": (r // 11) % 3 == 0})
     ncs = 36 if tier == "quick" else 720
     for r in range(ncs):
         specs.append({"kind": "tomo", "sclass": ["int", "sub"][r % 2], "shape": SHAPES[(r // 2) % len(SHAPES)]})
@@ -233,7 +250,7 @@ def gen_shift(rng, cls, shape):
     raise ValueError(cls)
 
 
-def gen_pair(rng, shape, s, family, dtype, bw_max=0.9):
+def gen_pair(rng, shape, s, family, dtype, bw_max=0.9, pedestal=False):
     """(im, ref, bw): ref is the exact circular translate of im by s, both in float64 (or the integer dtype for 'roll')."""
     dt = np.dtype(dtype)
     if family == "roll":
@@ -249,6 +266,8 @@ def gen_pair(rng, shape, s, family, dtype, bw_max=0.9):
     if bw_max >= 0.9 and rng.random() < 0.3:
         bw = float(rng.uniform(0.85, 0.9))  # wide band (~0.45 cycles/px): the parabolic estimate alone is off by up to ~0.1 px, so 1/up bites for up >= 16
     dc = float(rng.choice([0.0, 1.0, 3.0]))
+    if pedestal:  # background in units of the contrast (the image has unit standard deviation)
+        dc = float(10.0 ** rng.uniform(2.0, 3.0)) if C13_3_APPLIED else float(rng.uniform(100.0, 110.0))
     im = T.band_limited_image(rng, shape, bw, family, dc)
     return im, T.translate(im, s), bw
 
@@ -304,12 +323,19 @@ def rel_l2(a, b):
 class J:
     """Judging context of one case: fixed classifier fields + tolerance-class aware ctx.close."""
 
-    def __init__(self, ctx, backend, dtype, up, kind, **extra):
+    def __init__(self, ctx, backend, dtype, up, kind, pedestal=False, **extra):
         self.ctx, self.kind, self.up = ctx, kind, up
         self.prec = prec_of(backend, dtype)
         self.common = dict(backend=backend, dtype=dtype, up=up, skind=kind, upsampled=bool(up > (1 if backend == "numpy" else 2)), **extra)
         self.tol = tol_shift(backend, dtype, up, kind)  # accuracy claim for this shift class
         self.tol0 = tol_shift(backend, dtype, up, "int")  # "exactly" at working precision
+        if pedestal:
+            self.prec = "f32ped"
+            self.common["pedestal"] = True
+            if not C13_3_APPLIED:  # unrepaired numpy path: rounding of the zero-frequency term, measured floor 3e-4 px at mean = 110 x contrast
+                self.tol0 = max(self.tol0, 0.01)
+                if kind == "int":
+                    self.tol = self.tol0
 
     def close(self, base, value, bound, detail, io, k="int"):
         return self.ctx.close(value, bound, mech(base, k, self.prec, self.up), detail, check=base, io=io, **self.common)
@@ -346,8 +372,8 @@ def _run_numpy(spec, idx, ctx, rng, shape, s, im, ref, bw):
     iu = ctx.state["iu"]
     ccs = iu.cross_correlation_shift
     up, dtype, kind = spec["up"], spec["dtype"], skind(spec["sclass"])
-    j = J(ctx, "numpy", dtype, up, kind, family=spec["family"])
-    itol = tol_image(dtype)
+    j = J(ctx, "numpy", dtype, up, kind, pedestal=bool(spec.get("pedestal")), family=spec["family"])
+    itol = 1e-2 if spec.get("pedestal") else tol_image(dtype)  # relative to the contrast: float32 rounding of the background itself is 1e-7 x 1e3
     a = ref.astype(dtype)
     b = im.astype(dtype)
     a_keep, b_keep = a.copy(), b.copy()
@@ -448,7 +474,7 @@ def _run_torch(spec, idx, ctx, rng, shape, s, im, ref, bw):
     iu = ctx.state["iu"]
     torch = ctx.state["torch"]
     up, dtype, kind = spec["up"], spec["dtype"], skind(spec["sclass"])
-    j = J(ctx, "torch", dtype, up, kind, family=spec["family"])
+    j = J(ctx, "torch", dtype, up, kind, pedestal=bool(spec.get("pedestal")), family=spec["family"])
     tdt = getattr(torch, dtype)
     A = torch.tensor(np.asarray(ref, dtype=np.float64), dtype=tdt)
     B = torch.tensor(np.asarray(im, dtype=np.float64), dtype=tdt)
@@ -478,15 +504,19 @@ def _run_torch(spec, idx, ctx, rng, shape, s, im, ref, bw):
 
 def _run_est(spec, idx, ctx):
     rng = ctx.rng(idx)
+    if spec.get("pedestal") and not C13_3_APPLIED and (spec["backend"] == "torch" or spec["up"] < 2):
+        ctx.count("not_judged:single_precision_background_before_fix_C13-3")
+        ctx.nontrivial(("est-pedestal-skipped",), False)
+        return
     shape = gen_shape(rng, spec["shape"])
     s = gen_shift(rng, spec["sclass"], shape)
     bw_max = 0.7 if half_pixel_rounding(spec["backend"], spec["up"], skind(spec["sclass"])) else 0.9
-    im, ref, bw = gen_pair(rng, shape, s, spec["family"], spec["dtype"] if spec["backend"] == "numpy" else "float64", bw_max)
+    im, ref, bw = gen_pair(rng, shape, s, spec["family"], spec["dtype"] if spec["backend"] == "numpy" else "float64", bw_max, pedestal=bool(spec.get("pedestal")))
     if spec["backend"] == "numpy":
         r, d = _run_numpy(spec, idx, ctx, rng, shape, s, im, ref, bw)
     else:
         r, d = _run_torch(spec, idx, ctx, rng, shape, s, im, ref, bw)
-    ctx.nontrivial(("est", spec["backend"], spec["up"], spec["sclass"], spec["shape"], spec["dtype"], spec["family"]), bool(np.any(s != 0)))
+    ctx.nontrivial(("est", spec["backend"], spec["up"], spec["sclass"], spec["shape"], spec["dtype"], spec["family"], bool(spec.get("pedestal"))), bool(np.any(s != 0)))
     ctx.observe(shape=list(shape), applied=s.tolist(), returned=np.asarray(r).tolist(), error=None if d is None else d.tolist(), bandwidth=bw)
 
 
@@ -719,10 +749,78 @@ def _run_history(spec, idx, ctx):
     ctx.observe(shape=list(shape), other_shape=list(shape2), steps=done, last_applied=cur_s.tolist(), refill=alias)
 
 
+def _run_multiscale(spec, idx, ctx):
+    """direct_ptycho_utils.align_vbf_stack_multiscale as its real caller (fit_hyperparameters_cross_correlation) drives it:
+    reference / pairwise mode, several bin levels, running average, and a non-zero `initial_shifts` handed over together
+    with the stack those shifts were already applied to.  stack[k] = T_{a_k}(base) with a_k constant inside every bin of
+    the coarsest level (summing a bin then sums identical translates); returned total shifts must be -a_k (up to the
+    common offset that pairwise mode leaves free) and the returned aligned stack must be the (commonly shifted) base."""
+    dpu = ctx.state.get("dpu")
+    torch = ctx.state["torch"]
+    if dpu is None or not hasattr(dpu, "align_vbf_stack_multiscale") or not hasattr(dpu, "_bin_mask_and_stack_centered"):
+        ctx.count("callsite_missing:multiscale")
+        return
+    rng = ctx.rng(idx)
+    up, dtype, kind, mode, levels = spec["up"], spec["dtype"], spec["sclass"], spec["mode"], tuple(spec["levels"])
+    M, N = int(rng.integers(16, 41)), int(rng.integers(16, 41))
+    Q = int(rng.choice([6, 8, 9]))
+    ki = np.fft.fftfreq(Q, 1.0 / Q)
+    mask = torch.tensor((ki[:, None] ** 2 + ki[None, :] ** 2) <= float(rng.choice([1.0, 1.5, 2.0])) ** 2)
+    ii, jj = torch.where(mask)
+    n = int(ii.numel())
+    bw = float(rng.uniform(0.5, 0.7 if up <= 2 else 0.9))
+    base = T.band_limited_image(rng, (M, N), bw, "env", float(rng.choice([0.0, 2.0])))
+    mapping = dpu._bin_mask_and_stack_centered(mask, ii, jj, torch.zeros(n, 2, 2), levels[0])[4].cpu().numpy()
+    per = rng.uniform(-3.0, 3.0, size=(int(mapping.max()) + 1, 2))
+    per = np.round(per) if kind == "int" else per
+    a = per[mapping]
+    stack = np.stack([T.translate(base, ak) for ak in a])
+    g = np.zeros_like(a)
+    ini = None
+    if spec["init"] == "guess":  # an imperfect initial guess of the aligning shifts, already applied to the stack that is handed over
+        g = -a + (np.round(rng.uniform(-1.5, 1.5, size=a.shape)) if kind == "int" else rng.uniform(-1.5, 1.5, size=a.shape))
+        stack = np.stack([T.translate(stack[k], g[k]) for k in range(n)])
+        ini = torch.tensor(g, dtype=torch.float32)
+    elif spec["init"] == "zero":
+        ini = torch.zeros(n, 2)
+    tdt = getattr(torch, dtype)
+    S = torch.tensor(stack, dtype=tdt)
+    ref = torch.tensor(base, dtype=tdt) if mode == "reference" else None
+    ini_keep = None if ini is None else ini.clone()
+    gs, al = dpu.align_vbf_stack_multiscale(S, mask, ii, jj, levels, upsample_factor=up, reference=ref, initial_shifts=ini, running_average=bool(spec["running_average"]), verbose=False)
+    gs = gs.detach().cpu().numpy().astype(np.float64)
+    al = al.detach().cpu().numpy().astype(np.float64)
+    L = len(levels)
+    j = J(ctx, "torch", dtype, up, kind, site="direct_ptycho_utils.align_vbf_stack_multiscale", mode=mode, init=spec["init"], levels=L)
+    # one level: the estimator's own bound; several levels: every level registers against the mean of the previously aligned stack,
+    # so the bounds add up and integer shifts are no longer reproduced exactly (measured <= 0.05 px) -> L x the sub-pixel bound
+    sub_tol = (0.5 if up <= 1 else 1.0 / up)
+    tol = j.tol if L == 1 else L * sub_tol
+    kcls = kind if L == 1 else "sub"
+    ok = j.check("callsite_bad_result", gs.shape == (n, 2) and al.shape == stack.shape and bool(np.all(np.isfinite(gs))) and bool(np.all(np.isfinite(al))), lambda: "shifts %s aligned %s" % (gs.shape, al.shape), "callsite")
+    if ok:
+        d = T.wrap(gs + a, (M, N))  # total applied shift + own displacement = where the image ended up relative to base
+        c = np.zeros(2) if mode == "reference" else d.mean(axis=0)  # pairwise mode fixes the stack only up to a common translation
+        d = d - c
+        worst = float(np.max(np.abs(d)))
+        j.close("callsite_shift_error", worst, tol, lambda: "mode=%s levels=%s init=%s up=%d: total shifts %s, expected -a = %s (+ common %s)" % (mode, levels, spec["init"], up, gs.tolist()[:4], (-a).tolist()[:4], c.tolist()), "callsite", k=kcls)
+        if worst <= tol:
+            tgt = T.translate(base, c)
+            for k in range(n):
+                bound = math.pi * bw * float(np.sum(np.abs(d[k]))) + 5e-3
+                j.close("callsite_aligned_not_reference", rel_l2(al[k], tgt), bound, lambda: "mode=%s levels=%s init=%s: aligned image %d is not the reference translated by the residual %s (initial guess %s)" % (mode, levels, spec["init"], k, d[k].tolist(), g[k].tolist()), "callsite", k=kcls)
+        if ini_keep is not None and not torch.equal(ini, ini_keep):
+            ctx.count("observed:initial_shifts_modified_in_place")
+    ctx.nontrivial(("multiscale", mode, spec["init"], L, kind, up, dtype), True)
+    ctx.observe(shape=[M, N], n=n, levels=list(levels), mode=mode, init=spec["init"], returned=gs.tolist()[:3], applied=a.tolist()[:3])
+
+
 def run_case(spec, idx, ctx):
     with np.errstate(all="ignore"):
         if spec["kind"] == "est":
             _run_est(spec, idx, ctx)
+        elif spec["kind"] == "multiscale":
+            _run_multiscale(spec, idx, ctx)
         elif spec["kind"] == "history":
             _run_history(spec, idx, ctx)
         elif spec["kind"] == "tomo":
